@@ -1,0 +1,459 @@
+//! Verification hooks (cargo feature `verif`, off by default).
+//!
+//! Read-only access to every index table and thin wrappers over the
+//! crate-private storage encoders. Nothing here is reachable unless the
+//! crate is built with `--features verif`.
+
+use {super::*, ref_cast::RefCast};
+
+pub use super::entry::InscriptionEntry;
+
+#[derive(Debug, Clone, PartialEq)]
+pub struct UtxoDump {
+  pub raw: Vec<u8>,
+  pub value: u64,
+  pub ranges: Option<Vec<(u64, u64)>>,
+  pub script: Option<Vec<u8>>,
+  pub inscriptions: Option<Vec<(u32, u64)>>,
+}
+
+#[derive(Debug, Clone, Default, PartialEq)]
+pub struct Dump {
+  pub collection_to_latest_child: Vec<(u32, u32)>,
+  pub gallery: Vec<u32>,
+  pub headers: Vec<(u32, Vec<u8>)>,
+  pub height_to_last_sequence_number: Vec<(u32, u32)>,
+  pub home_inscriptions: Vec<(u32, InscriptionId)>,
+  pub id_to_sequence_number: Vec<(InscriptionId, u32)>,
+  pub number_to_sequence_number: Vec<(i32, u32)>,
+  pub latest_child_to_collection: Vec<(u32, u32)>,
+  pub offers: Vec<(u64, Vec<u8>)>,
+  pub rune_balances: Vec<(OutPoint, Vec<(RuneId, u128)>)>,
+  pub utxos: Vec<(OutPoint, UtxoDump)>,
+  pub rune_entries: Vec<(RuneId, RuneEntry)>,
+  pub rune_to_id: Vec<(u128, RuneId)>,
+  pub sat_to_satpoint: Vec<(u64, SatPoint)>,
+  pub sat_to_sequence_number: Vec<(u64, u32)>,
+  pub script_to_outpoint: Vec<(Vec<u8>, OutPoint)>,
+  pub children: Vec<(u32, u32)>,
+  pub entries: Vec<(u32, InscriptionEntry)>,
+  pub sequence_number_to_rune_id: Vec<(u32, RuneId)>,
+  pub sequence_number_to_satpoint: Vec<(u32, SatPoint)>,
+  pub statistics: Vec<(u64, u64)>,
+  pub txid_to_rune: Vec<(Txid, u128)>,
+  pub txid_to_transaction: Vec<(Txid, Vec<u8>)>,
+  pub write_transactions: Vec<(u32, u128)>,
+  pub savepoints: Vec<u64>,
+}
+
+fn utxo_bytes(entry: &UtxoEntry) -> Vec<u8> {
+  let bytes: &[u8] = <&UtxoEntry as redb::Value>::as_bytes(&entry);
+  bytes.to_vec()
+}
+
+fn parse_utxo(entry: &UtxoEntry, index: &Index) -> UtxoDump {
+  let parsed = entry.parse(index);
+  UtxoDump {
+    raw: utxo_bytes(entry),
+    value: parsed.total_value(),
+    ranges: index.index_sats.then(|| {
+      parsed
+        .sat_ranges()
+        .chunks_exact(11)
+        .map(|chunk| SatRange::load(chunk.try_into().unwrap()))
+        .collect()
+    }),
+    script: index
+      .index_addresses
+      .then(|| parsed.script_pubkey().to_vec()),
+    inscriptions: index
+      .index_inscriptions
+      .then(|| parsed.parse_inscriptions()),
+  }
+}
+
+pub fn persistent_savepoints(index: &Index) -> Result<Vec<u64>> {
+  let wtx = index.database.begin_write()?;
+  let mut savepoints = wtx.list_persistent_savepoints()?.collect::<Vec<u64>>();
+  wtx.abort()?;
+  savepoints.sort();
+  Ok(savepoints)
+}
+
+pub fn index_flags(index: &Index) -> (bool, bool, bool, bool, bool) {
+  (
+    index.index_sats,
+    index.index_addresses,
+    index.index_inscriptions,
+    index.index_runes,
+    index.index_transactions,
+  )
+}
+
+pub fn first_index_height(index: &Index) -> u32 {
+  index.first_index_height
+}
+
+pub fn dump(index: &Index) -> Result<Dump> {
+  let savepoints = persistent_savepoints(index)?;
+
+  let rtx = index.database.begin_read()?;
+
+  let mut dump = Dump {
+    savepoints,
+    ..Default::default()
+  };
+
+  for result in rtx
+    .open_table(COLLECTION_SEQUENCE_NUMBER_TO_LATEST_CHILD_SEQUENCE_NUMBER)?
+    .iter()?
+  {
+    let (k, v) = result?;
+    dump
+      .collection_to_latest_child
+      .push((k.value(), v.value()));
+  }
+
+  for result in rtx.open_table(GALLERY_SEQUENCE_NUMBERS)?.iter()? {
+    let (k, _) = result?;
+    dump.gallery.push(k.value());
+  }
+
+  for result in rtx.open_table(HEIGHT_TO_BLOCK_HEADER)?.iter()? {
+    let (k, v) = result?;
+    dump.headers.push((k.value(), v.value().to_vec()));
+  }
+
+  for result in rtx.open_table(HEIGHT_TO_LAST_SEQUENCE_NUMBER)?.iter()? {
+    let (k, v) = result?;
+    dump
+      .height_to_last_sequence_number
+      .push((k.value(), v.value()));
+  }
+
+  for result in rtx.open_table(HOME_INSCRIPTIONS)?.iter()? {
+    let (k, v) = result?;
+    dump
+      .home_inscriptions
+      .push((k.value(), InscriptionId::load(v.value())));
+  }
+
+  for result in rtx.open_table(INSCRIPTION_ID_TO_SEQUENCE_NUMBER)?.iter()? {
+    let (k, v) = result?;
+    dump
+      .id_to_sequence_number
+      .push((InscriptionId::load(k.value()), v.value()));
+  }
+
+  for result in rtx
+    .open_table(INSCRIPTION_NUMBER_TO_SEQUENCE_NUMBER)?
+    .iter()?
+  {
+    let (k, v) = result?;
+    dump.number_to_sequence_number.push((k.value(), v.value()));
+  }
+
+  for result in rtx
+    .open_multimap_table(LATEST_CHILD_SEQUENCE_NUMBER_TO_COLLECTION_SEQUENCE_NUMBER)?
+    .iter()?
+  {
+    let (k, values) = result?;
+    for v in values {
+      dump
+        .latest_child_to_collection
+        .push((k.value(), v?.value()));
+    }
+  }
+
+  for result in rtx.open_table(NUMBER_TO_OFFER)?.iter()? {
+    let (k, v) = result?;
+    dump.offers.push((k.value(), v.value().to_vec()));
+  }
+
+  for result in rtx.open_table(OUTPOINT_TO_RUNE_BALANCES)?.iter()? {
+    let (k, v) = result?;
+    let buffer = v.value();
+    let mut balances = Vec::new();
+    let mut i = 0;
+    while i < buffer.len() {
+      let ((id, balance), len) = Index::decode_rune_balance(&buffer[i..])?;
+      i += len;
+      balances.push((id, balance));
+    }
+    dump
+      .rune_balances
+      .push((OutPoint::load(*k.value()), balances));
+  }
+
+  for result in rtx.open_table(OUTPOINT_TO_UTXO_ENTRY)?.iter()? {
+    let (k, v) = result?;
+    dump
+      .utxos
+      .push((OutPoint::load(*k.value()), parse_utxo(v.value(), index)));
+  }
+
+  for result in rtx.open_table(RUNE_ID_TO_RUNE_ENTRY)?.iter()? {
+    let (k, v) = result?;
+    dump
+      .rune_entries
+      .push((RuneId::load(k.value()), RuneEntry::load(v.value())));
+  }
+
+  for result in rtx.open_table(RUNE_TO_RUNE_ID)?.iter()? {
+    let (k, v) = result?;
+    dump.rune_to_id.push((k.value(), RuneId::load(v.value())));
+  }
+
+  for result in rtx.open_table(SAT_TO_SATPOINT)?.iter()? {
+    let (k, v) = result?;
+    dump
+      .sat_to_satpoint
+      .push((k.value(), SatPoint::load(*v.value())));
+  }
+
+  for result in rtx.open_multimap_table(SAT_TO_SEQUENCE_NUMBER)?.iter()? {
+    let (k, values) = result?;
+    for v in values {
+      dump.sat_to_sequence_number.push((k.value(), v?.value()));
+    }
+  }
+
+  for result in rtx.open_multimap_table(SCRIPT_PUBKEY_TO_OUTPOINT)?.iter()? {
+    let (k, values) = result?;
+    for v in values {
+      dump
+        .script_to_outpoint
+        .push((k.value().to_vec(), OutPoint::load(v?.value())));
+    }
+  }
+
+  for result in rtx.open_multimap_table(SEQUENCE_NUMBER_TO_CHILDREN)?.iter()? {
+    let (k, values) = result?;
+    for v in values {
+      dump.children.push((k.value(), v?.value()));
+    }
+  }
+
+  for result in rtx
+    .open_table(SEQUENCE_NUMBER_TO_INSCRIPTION_ENTRY)?
+    .iter()?
+  {
+    let (k, v) = result?;
+    dump
+      .entries
+      .push((k.value(), InscriptionEntry::load(v.value())));
+  }
+
+  for result in rtx.open_table(SEQUENCE_NUMBER_TO_RUNE_ID)?.iter()? {
+    let (k, v) = result?;
+    dump
+      .sequence_number_to_rune_id
+      .push((k.value(), RuneId::load(v.value())));
+  }
+
+  for result in rtx.open_table(SEQUENCE_NUMBER_TO_SATPOINT)?.iter()? {
+    let (k, v) = result?;
+    dump
+      .sequence_number_to_satpoint
+      .push((k.value(), SatPoint::load(*v.value())));
+  }
+
+  for result in rtx.open_table(STATISTIC_TO_COUNT)?.iter()? {
+    let (k, v) = result?;
+    dump.statistics.push((k.value(), v.value()));
+  }
+
+  for result in rtx.open_table(TRANSACTION_ID_TO_RUNE)?.iter()? {
+    let (k, v) = result?;
+    dump
+      .txid_to_rune
+      .push((Txid::load(*k.value()), v.value()));
+  }
+
+  for result in rtx.open_table(TRANSACTION_ID_TO_TRANSACTION)?.iter()? {
+    let (k, v) = result?;
+    dump
+      .txid_to_transaction
+      .push((Txid::load(*k.value()), v.value().to_vec()));
+  }
+
+  for result in rtx
+    .open_table(WRITE_TRANSACTION_STARTING_BLOCK_COUNT_TO_TIMESTAMP)?
+    .iter()?
+  {
+    let (k, v) = result?;
+    dump.write_transactions.push((k.value(), v.value()));
+  }
+
+  Ok(dump)
+}
+
+// H5: storage encodings, exactly as the index uses them. Each function
+// stores a value with the crate-private encoder and loads it back.
+
+pub fn sat_range_bytes(range: (u64, u64)) -> [u8; 11] {
+  SatRange::store(range)
+}
+
+pub fn sat_range_from_bytes(bytes: [u8; 11]) -> (u64, u64) {
+  SatRange::load(bytes)
+}
+
+pub fn header_roundtrip(header: Header) -> Header {
+  Header::load(header.store())
+}
+
+pub fn outpoint_roundtrip(outpoint: OutPoint) -> OutPoint {
+  OutPoint::load(outpoint.store())
+}
+
+pub fn satpoint_roundtrip(satpoint: SatPoint) -> SatPoint {
+  SatPoint::load(satpoint.store())
+}
+
+pub fn txid_roundtrip(txid: Txid) -> Txid {
+  Txid::load(txid.store())
+}
+
+pub fn inscription_id_roundtrip(id: InscriptionId) -> InscriptionId {
+  InscriptionId::load(id.store())
+}
+
+pub fn rune_id_roundtrip(id: RuneId) -> RuneId {
+  RuneId::load(id.store())
+}
+
+pub fn rune_roundtrip(rune: Rune) -> Rune {
+  Rune::load(rune.store())
+}
+
+pub fn rune_entry_roundtrip(entry: RuneEntry) -> RuneEntry {
+  RuneEntry::load(entry.store())
+}
+
+pub fn inscription_entry_roundtrip(entry: InscriptionEntry) -> InscriptionEntry {
+  InscriptionEntry::load(entry.store())
+}
+
+/// Writes the values through real redb tables of the index' own table
+/// definitions (in-memory backend) and reads them back.
+pub fn redb_roundtrip(
+  rune_entry: RuneEntry,
+  inscription_entry: InscriptionEntry,
+  outpoint: OutPoint,
+  satpoint: SatPoint,
+  header: Header,
+  utxo_entry: &[u8],
+) -> Result<(RuneEntry, InscriptionEntry, OutPoint, SatPoint, Header, Vec<u8>)> {
+  let database =
+    Database::builder().create_with_backend(redb::backends::InMemoryBackend::new())?;
+
+  let rune_id = RuneId { block: 1, tx: 1 };
+
+  let wtx = database.begin_write()?;
+  {
+    wtx
+      .open_table(RUNE_ID_TO_RUNE_ENTRY)?
+      .insert(rune_id.store(), rune_entry.store())?;
+    wtx
+      .open_table(SEQUENCE_NUMBER_TO_INSCRIPTION_ENTRY)?
+      .insert(7, &inscription_entry.store())?;
+    wtx
+      .open_table(SEQUENCE_NUMBER_TO_SATPOINT)?
+      .insert(7, &satpoint.store())?;
+    wtx
+      .open_table(HEIGHT_TO_BLOCK_HEADER)?
+      .insert(7, &header.store())?;
+    wtx
+      .open_table(OUTPOINT_TO_UTXO_ENTRY)?
+      .insert(&outpoint.store(), UtxoEntry::ref_cast(utxo_entry))?;
+  }
+  wtx.commit()?;
+
+  let rtx = database.begin_read()?;
+
+  let rune_entry = RuneEntry::load(
+    rtx
+      .open_table(RUNE_ID_TO_RUNE_ENTRY)?
+      .get(rune_id.store())?
+      .unwrap()
+      .value(),
+  );
+
+  let inscription_entry = InscriptionEntry::load(
+    rtx
+      .open_table(SEQUENCE_NUMBER_TO_INSCRIPTION_ENTRY)?
+      .get(7)?
+      .unwrap()
+      .value(),
+  );
+
+  let satpoint = SatPoint::load(
+    *rtx
+      .open_table(SEQUENCE_NUMBER_TO_SATPOINT)?
+      .get(7)?
+      .unwrap()
+      .value(),
+  );
+
+  let header = Header::load(*rtx.open_table(HEIGHT_TO_BLOCK_HEADER)?.get(7)?.unwrap().value());
+
+  let table = rtx.open_table(OUTPOINT_TO_UTXO_ENTRY)?;
+  let (key, value) = table.iter()?.next().unwrap()?;
+  let outpoint = OutPoint::load(*key.value());
+  let bytes = utxo_bytes(value.value());
+
+  Ok((
+    rune_entry,
+    inscription_entry,
+    outpoint,
+    satpoint,
+    header,
+    bytes,
+  ))
+}
+
+/// The parts of an output entry. Which parts are stored depends on the
+/// index flags, exactly as in `UtxoEntryBuf`.
+#[derive(Debug, Clone, PartialEq)]
+pub struct UtxoParts {
+  pub ranges: Vec<(u64, u64)>,
+  pub value: u64,
+  pub script: Vec<u8>,
+  pub inscriptions: Vec<(u32, u64)>,
+}
+
+pub fn utxo_entry_build(index: &Index, parts: &UtxoParts) -> Vec<u8> {
+  let mut buf = UtxoEntryBuf::new();
+
+  if index.index_sats {
+    let mut bytes = Vec::new();
+    for range in &parts.ranges {
+      bytes.extend_from_slice(&SatRange::store(*range));
+    }
+    buf.push_sat_ranges(&bytes, index);
+  } else {
+    buf.push_value(parts.value, index);
+  }
+
+  if index.index_addresses {
+    buf.push_script_pubkey(&parts.script, index);
+  }
+
+  if index.index_inscriptions {
+    for (sequence_number, offset) in &parts.inscriptions {
+      buf.push_inscription(*sequence_number, *offset, index);
+    }
+  }
+
+  utxo_bytes(buf.as_ref())
+}
+
+pub fn utxo_entry_parse(index: &Index, bytes: &[u8]) -> UtxoDump {
+  parse_utxo(UtxoEntry::ref_cast(bytes), index)
+}
+
+pub fn utxo_entry_merged(index: &Index, a: &[u8], b: &[u8]) -> Vec<u8> {
+  let merged = UtxoEntryBuf::merged(UtxoEntry::ref_cast(a), UtxoEntry::ref_cast(b), index);
+  utxo_bytes(merged.as_ref())
+}
